@@ -45,11 +45,10 @@ impl FiniteDomain {
         match self {
             FiniteDomain::Interval(r) => match r.clone().into_iter().find(predicate) {
                 Some(u) => {
-                    let r = *r.start()..=u.saturating_sub(1);
-                    if r.is_empty() {
+                    if u == *r.start() {
                         None
                     } else {
-                        Some(FiniteDomain::Interval(r))
+                        Some(FiniteDomain::Interval(*r.start()..=u - 1))
                     }
                 }
                 None => Some(self.clone()),
